@@ -561,6 +561,7 @@ type Explorer struct {
 	journaling  bool
 	SymbolicMapOrder bool // map iteration order is a symbolic permutation (otherwise a fixed canonical order)
 	mapChoices  int
+	panicSite   string
 }
 
 var cur *Explorer
